@@ -41,7 +41,9 @@ def check_handle_stream_function(ctx):
     repo = ctx.repo
     f = repo.method("SecsHandler", "_handle_stream_function", inherited=False)
     ctx.touch(f)
-    fn = f.node
+    from .. import inline
+
+    fn = inline.expanded(ctx, f, keep={"_handle_unknown_functions", "_generate_sf_callback_name"})  # e.g. an extracted "send the abort" helper
     q = f.qualname
     cfg = cfg_of(fn)
     param = fn.args.args[1].arg
@@ -99,6 +101,8 @@ def check_handle_stream_function(ctx):
     ctx.ob("C08.P1", q, ok, "a failing callback is answered by one abort" if ok else f"{len(abort_sends)} sends in the exception handler", key="one-abort", where=f.where)
     for n, c in abort_sends:
         a0 = c.args[0] if c.args else None
+        if isinstance(a0, ast.Name):
+            a0 = rules.expand_ast(fn, a0)  # built in a local first
         ok = isinstance(a0, ast.Call) and isinstance(a0.func, ast.Call) and call_name(a0.func) == "self.stream_function" and [norm(x) for x in a0.func.args] == [f"{param}.header.stream", "0"] and not a0.args
         ctx.ob("C08.P1", q, ok, "the abort is function 0 of the request's stream" if ok else f"abort `{norm(a0)}` is not stream_function(message.header.stream, 0)()", key="abort-class", where=f.where)
         if ok:
@@ -111,6 +115,17 @@ def check_handle_stream_function(ctx):
             ctx.ob("C08.P1", q, total, "the abort class is available for every stream" if total else
                    "the abort class is looked up with stream_function(), which raises KeyError for a stream without a catalogued function 0: inside the exception handler this escapes and the primary gets no reply at all "
                    "(input: a W-bit primary of a user-registered stream, e.g. S64F1 with S64F1/S64F2 added to the catalogue, whose callback raises)", key="abort-total", where=f.where)
+    # the lookup both replies are built with: for numbers the catalogue has it hands out exactly the catalogue's class
+    from .. import summary
+
+    look = repo.method("SecsHandler", "stream_function")
+    ctx.touch(look)
+    lfn, _ = normal.normalise(repo, look, comps=False, ifexp=False)
+    want = "self.settings.streams_functions.function(" + ", ".join(a.arg for a in lfn.args.args[1:]) + ")"
+    found = [p_ for p_ in summary.summarise(lfn) if (f"{want} is None", False) in p_.conds or not any(want in a for a, _ in p_.conds)]
+    ok = bool(found) and all(p_.kind == "return" and p_.value == want for p_ in found)
+    ctx.ob("C08.P1", look.qualname, ok, "for catalogued numbers stream_function returns the catalogue's class" if ok else
+           f"for numbers the catalogue has, stream_function does not return {want}: the S9F5 / abort / secondary built with it is not the catalogued function", key="lookup", where=look.where)
     # P2: W-bit
     for n, c in normal_sends:  # the property speaks about messages handled without error; the abort path is not constrained
         ok = any("require_response" in t and v for t, v in cnd.facts(cfg, n))
@@ -123,13 +138,16 @@ def check_handle_stream_function(ctx):
     # unknown functions
     u = repo.method("SecsHandler", "_handle_unknown_functions", inherited=False)
     ctx.touch(u)
-    ucfg = cfg_of(normal.normalised(ctx, u))
+    ufn = normal.normalised(ctx, u)
+    ucfg = cfg_of(ufn)
     up = u.node.args.args[1].arg
     usends = [(n, c) for n in ucfg.real_nodes() for c in n.calls if call_name(c) == "self.send_response"]
     ok = len(usends) == 1
     ctx.ob("C08.P1", u.qualname, ok, "one S9F5 reply for an unknown function" if ok else f"{len(usends)} replies", key="one-s9f5", where=u.where)
     for n, c in usends:
         a0 = c.args[0] if c.args else None
+        if isinstance(a0, ast.Name):
+            a0 = rules.expand_ast(ufn, a0)  # built in a local first
         cls_ok = isinstance(a0, ast.Call) and isinstance(a0.func, ast.Call) and call_name(a0.func) == "self.stream_function" and [norm(x) for x in a0.func.args] == ["9", "5"]
         body_ok = cls_ok and len(a0.args) == 1 and norm(a0.args[0]) == f"{up}.header.encode()"
         sys_ok = len(c.args) == 2 and norm(c.args[1]) == _sys_arg(up)
